@@ -526,6 +526,9 @@ class Model:
             for i in range(s['ns']):
                 pred.clauses.append((e.id, 'S', i, a0))
                 mode = e.p.get('se%d' % i, 0)
+                if mode == 4 and s['fn'] == 'r':
+                    a0 = 77 + i            # written through the reference parameter: later clauses and the caller see it
+                    pred.trig.add('write_through_param')
                 if mode == 1:
                     result = ('exc', 'S', e.id, i)
                     pred.trig.add('se_throws')
@@ -551,7 +554,7 @@ class Model:
                 result = ('ret', e.id)
             elif act == 'retref':
                 pred.clauses.append((e.id, 'V', 0, a0))
-                result = ('ref', e.id, e.p.get('slot', 0) & 7)
+                result = ('ref', e.id, e.p.get('slot', 0) & 7, a0)
             elif act == 'tstd':
                 pred.clauses.append((e.id, 'X', 0, a0))
                 result = ('exc', 'P', e.id)
